@@ -43,7 +43,7 @@ def setup(obs):
 QKINDS = ['bbox', 'boundary', 'boundary', 'far', 'lattice', 'mixed']
 FORMS = [('scalar', None), ('empty', (0,)), ('1d', None), ('1d', None), ('2d', None), ('3d', (2, 1, 3)),
          ('2d-transposed', None), ('2d-fortran', None), ('1d-strided', None), ('2d-sliced', None), ('1d-reversed', None),
-         ('one-element', (1,)), ('one-element', (1, 1)), ('one-element', (1, 1, 1))]
+         ('one-element', (1,)), ('one-element', (1, 1)), ('one-element', (1, 1, 1)), ('broadcast', None), ('readonly', None), ('masked', None)]
 DTYPES = ['float64', 'float64', 'float64', 'float32', 'int64', 'int32']
 
 
@@ -179,6 +179,15 @@ def make_queries(region, q):
         if form == '2d-fortran':
             return regions.PixCoord(np.asfortranarray(X), np.asfortranarray(Y))
         return regions.PixCoord(X[:, ::2], Y[:, ::2])
+    if form == 'broadcast':
+        return regions.PixCoord(x, y[0].item())                 # y is a scalar: PixCoord holds a read-only broadcast view
+    if form == 'readonly':
+        x.setflags(write=False)
+        y.setflags(write=False)
+        return regions.PixCoord(x, y)
+    if form == 'masked':
+        # masked arrays are arrays too; nothing is masked, so the answers are those of the plain data
+        return regions.PixCoord(np.ma.MaskedArray(x), np.ma.MaskedArray(y))
     if form == '1d-strided':
         return regions.PixCoord(x[::3], y[::3])
     if form == '1d-reversed':
